@@ -288,6 +288,41 @@ func vpH_C09_chg_text_dups() {
 	vpReach("end")
 }
 
+// item lists with a repeated member: a repeated member does not stand for a different one
+func vpH_C09_chg_list_dups() {
+	a, b := vpMkIRI('a'), vpMkIRI('b')
+	vpAssume(a != b)
+	var l1, l2 ItemCollection
+	if vpBool() {
+		l1, l2 = ItemCollection{a, a}, ItemCollection{a, b}
+	} else {
+		l1, l2 = ItemCollection{a, a, b}, ItemCollection{b, a, b}
+	}
+	if vpBool() { // members as objects rather than IRIs
+		for i := range l1 {
+			l1[i] = &Object{ID: l1[i].GetLink(), Type: NoteType}
+		}
+		for i := range l2 {
+			l2[i] = &Object{ID: l2[i].GetLink(), Type: NoteType}
+		}
+	}
+	var x, y Item
+	switch vpChoice(4) {
+	case 0:
+		x, y = l1, l2
+	case 1:
+		x, y = &Object{ID: "https://h.ex/i", Type: NoteType, To: l1}, &Object{ID: "https://h.ex/i", Type: NoteType, To: l2}
+	case 2:
+		x, y = &OrderedCollection{ID: "https://h.ex/i", Type: OrderedCollectionType, OrderedItems: l1}, &OrderedCollection{ID: "https://h.ex/i", Type: OrderedCollectionType, OrderedItems: l2}
+	default:
+		x, y = l1.IRIs(), l2.IRIs()
+	}
+	vpAssert("list-dups/changed-unequal", !ItemsEqual(x, y))
+	vpAssert("list-dups/changed-unequal-rev", !ItemsEqual(y, x))
+	vpAssert("list-dups/reflexive", ItemsEqual(x, x) && ItemsEqual(y, y))
+	vpReach("end")
+}
+
 func vpH_C09_chg_id() {
 	ti := vpChoice(3)
 	x := vpNew(ti)
